@@ -226,6 +226,13 @@ class GeneralAssignment(Statement):
             self.isvalid = False
             return
         self.sign = sign = m.group("sign")
+        if m.group("variable").rstrip()[-1:] in ("<", ">", "/") or (
+            sign == "=" and m.group("expr").startswith("=")
+        ):
+            # The '=' is part of a relational operator (<=, >=, /=, ==),
+            # e.g. in "print *, a <= b": this is not an assignment.
+            self.isvalid = False
+            return
         if isinstance(self, Assignment) and sign != "=":
             self.isvalid = False
             return
